@@ -127,7 +127,9 @@ func (c *Conversation) shouldRetransmit() bool {
 }
 
 func (c *Conversation) maybeRetransmit() ([]messageWithHeader, error) {
-	if !c.shouldRetransmit() {
+	// retransmission needs an encrypted session: a key-exchange message that was
+	// ignored or refused must not consume (and lose) the queued messages
+	if !c.shouldRetransmit() || c.msgState != encrypted {
 		return nil, nil
 	}
 
